@@ -122,7 +122,9 @@ func runKeys(w *World, p map[string]int, prop string) {
 	var kws []*keyWallet
 	bitsChoices := []int{128, 160, 192, 224, 256}
 	wrongs := func(ws *WalletState) string {
-		c := []string{"", "a", ws.Pass + "1", ws.Pass[1:], strings.ToUpper(ws.Pass), "wrongPass123", string([]byte{0xff, 0x00, 0x41, 0x42, 0x43, 0x44}), PubPass, strings.Repeat("z", 41)}
+		// (the right passphrase followed by NUL bytes: the key-derivation's HMAC
+		// pads short keys with zeros, so this candidate derives the same key)
+		c := []string{"", "a", ws.Pass + "1", ws.Pass[1:], strings.ToUpper(ws.Pass), "wrongPass123", string([]byte{0xff, 0x00, 0x41, 0x42, 0x43, 0x44}), PubPass, strings.Repeat("z", 41), ws.Pass + "\x00", ws.Pass + "\x00\x00\x00"}
 		return c[t.Int(len(c))]
 	}
 	// checkSecrets scans everything ever written by every instance.
